@@ -582,9 +582,6 @@ def run(ctx):
             if res['status'] == 'unclassified':
                 rep.harness_error(f'{name}: rule class {res["rule"]} not classified by the harness')
                 continue
-            if key in seen:
-                continue
-            seen.add(key)
             if res['status'] == 'inexact':
                 rep.violation(
                     key, f'{name} {res["rule"]} on {res["label"]}: {res["direction"]}',
